@@ -882,6 +882,126 @@ def c19(res, tier, seed, lib):
         shutil.rmtree(d, ignore_errors=True)
 
 
+# ------------------------------------------------------------------------------------------ C09 / C10 (CLI glue)
+
+def wire_floats(info):
+    import struct
+    return [struct.unpack(">d", bytes.fromhex(h))[0] for h in info.wire.split(" ")]
+
+
+def rgb_of(info):
+    return ((info.packed >> 16) & 255, (info.packed >> 8) & 255, info.packed & 255)
+
+
+def near_gray_texts(rnd, n):
+    out = []
+    for _ in range(n):
+        g = rnd.randrange(256)
+        d = [0, 0, 0]
+        d[rnd.randrange(3)] = rnd.choice([-2, -1, 1, 2])
+        out.append("#%02x%02x%02x" % tuple(min(255, max(0, g + x)) for x in d))
+    return out
+
+
+def c09(res, tier, seed, lib):
+    """`pastel to-gray` / `pastel textcolor` hand every colour to the library functions: the printed
+    gray is achromatic with the input's luminance (within one gray step), grays stay, and the text
+    colour is black or white with contrast >= 4.5."""
+    rnd = random.Random(seed)
+    n = 60 if tier != "thorough" else 1200
+    texts = near_gray_texts(rnd, n) + [rand_color_text(rnd) for _ in range(n)] + ["#%02x%02x%02x" % (g, g, g) for g in range(0, 256, 5 if tier != "thorough" else 1)]
+    texts += ["rgba(128,129,128,0.5)", "hsl(200,1%,50%)", "hsl(10,0.4%,30%)"]
+    inf = infos(texts)
+    rc, out, err = run_cli(["to-gray"] + texts)
+    lines = out.decode().split("\n")[:-1]
+    res.check(rc == 0 and len(lines) == len(texts), "exit-0", "cli:to-gray", "batch", "rc=%s %d lines %r" % (rc, len(lines), err[-120:]))
+    if len(lines) == len(texts):
+        got = infos(lines)
+        mo = model_batch(["adj togray %s" % i.wire for i in inf])
+        fo = model_batch([("fmt hsl nosp " + " ".join(m.split(" ")[1:5])) if m.startswith("ok ") else "bad" for m in mo])
+        for t, i, ln, g, f_ in zip(texts, inf, lines, got, fo):
+            inp = "to-gray %s" % t
+            res.case(inp)
+            res.model_op()
+            want = unhex(f_.split(" ")[1]).decode() if f_.startswith("ok ") else "?"
+            if want != ln:
+                res.disagree(inp, ln, want)
+            if not (g.ok and i.ok):
+                res.fail("output-parses", "cli:to-gray", inp, ln)
+                continue
+            r, gg, b = rgb_of(g)
+            res.check(r == gg == b, "to-gray-is-achromatic", "cli:to-gray", inp, "printed %s = rgb(%d,%d,%d)" % (ln, r, gg, b))
+            # luminance keys are 1000*luminance truncated; one gray step changes luminance by < 0.012
+            res.check(abs(g.keys["luminance"] - i.keys["luminance"]) <= 14, "to-gray-keeps-luminance", "cli:to-gray", inp,
+                      "luminance %d/1000 -> %d/1000" % (i.keys["luminance"], g.keys["luminance"]))
+            ri, gi, bi = rgb_of(i)
+            if ri == gi == bi and wire_floats(i)[1] == 0.0:
+                res.check((r, gg, b) == (ri, gi, bi), "to-gray-leaves-grays", "cli:to-gray", inp, "%s -> %s" % ((ri, gi, bi), (r, gg, b)))
+    rc, out, err = run_cli(["textcolor"] + texts)
+    lines = out.decode().split("\n")[:-1]
+    res.check(rc == 0 and len(lines) == len(texts), "exit-0", "cli:textcolor", "batch", "rc=%s %d lines" % (rc, len(lines)))
+    if len(lines) == len(texts):
+        for t, i, ln in zip(texts, inf, lines):
+            inp = "textcolor %s" % t
+            res.case(inp)
+            res.check(ln in ("hsl(0,0.0%,0.0%)", "hsl(0,0.0%,100.0%)"), "textcolor-black-or-white", "cli:textcolor", inp, ln)
+            if i.ok:
+                lum = i.keys["luminance"] / 1000.0
+                ratio = (lum + 0.05) / 0.05 if ln == "hsl(0,0.0%,0.0%)" else 1.05 / (lum + 0.001 + 0.05)
+                res.check(ratio >= 4.5, "textcolor-contrast-4.5", "cli:textcolor", inp, "luminance %.3f, text %s, contrast about %.2f" % (lum, ln, ratio))
+
+
+def c10(res, tier, seed, lib):
+    """Alpha through the CLI: every unary transformation and every `set` of a non-alpha property
+    prints the input's alpha; alpha is printed exactly when it differs from 1."""
+    rnd = random.Random(seed)
+    n = 8 if tier != "thorough" else 80
+    texts = []
+    for _ in range(n):
+        a = rnd.choice([0.5, 0.25, 0.004, 0.996, round(rnd.uniform(0.01, 0.99), 3)])
+        texts.append(rnd.choice(["rgba(%d,%d,%d,%s)" % (rnd.randrange(256), rnd.randrange(256), rnd.randrange(256), a),
+                                 "hsla(%d,%d%%,%d%%,%s)" % (rnd.randrange(360), rnd.randrange(5, 100), rnd.randrange(5, 95), a)]))
+    texts += ["rgba(128,128,128,0.5)", "rgba(0,0,0,0.3)", "#ff000080"]
+    inf = infos(texts)
+    cmds = [["lighten", "0.1"], ["darken", "0.15"], ["saturate", "0.2"], ["desaturate", "0.1"], ["rotate", "40"], ["complement"],
+            ["to-gray"], ["colorblind", "prot"], ["colorblind", "deuter"], ["colorblind", "trit"]]
+    for p in SET_PROPS:
+        if p == "alpha":
+            continue
+        v = {"red": "10", "green": "200", "blue": "99", "hsl-hue": "123", "hue": "77", "lightness": "60", "chroma": "30",
+             "lab-a": "20", "lab-b": "30", "oklab-l": "0.6", "oklab-a": "0.1", "oklab-b": "0.05", "hsl-saturation": "0.4",
+             "hsl-lightness": "0.6"}.get(p, "0.5")
+        cmds.append(["set", p, v])
+    for cmd in cmds:
+        rc, out, err = run_cli(cmd + texts)
+        lines = out.decode().split("\n")[:-1]
+        res.check(rc == 0 and len(lines) == len(texts), "exit-0", "cli:" + cmd[0], " ".join(cmd), "rc=%s %d lines %r" % (rc, len(lines), err[-120:]))
+        if len(lines) != len(texts):
+            continue
+        got = infos(lines)
+        for t, i, ln, g in zip(texts, inf, lines, got):
+            inp = "%s %s" % (" ".join(cmd), t)
+            res.case(inp)
+            if not (g.ok and i.ok):
+                res.fail("output-parses", "cli:" + cmd[0], inp, ln)
+                continue
+            a_in, a_out = wire_floats(i)[3], wire_floats(g)[3]
+            # printed with at most three decimals
+            res.check(abs(a_in - a_out) <= 0.00051, "alpha-carried-unchanged", "cli:" + cmd[0], inp, "alpha %r -> printed %s (alpha %r)" % (a_in, ln, a_out))
+    # alpha is printed exactly when it differs from 1
+    for fmt in ["hex", "rgb", "hsl", "hsv", "lab", "lch", "oklab", "rgb-float"]:
+        for t, has in [("rgba(10,20,30,1.0)", False), ("rgba(10,20,30,0.5)", True), ("#0a141e", False), ("#0a141eff", False), ("#0a141e80", True)]:
+            rc, out, err = run_cli(["format", fmt, t])
+            ln = out.decode().strip()
+            inp = "format %s %s" % (fmt, t)
+            res.case(inp)
+            if fmt == "hex":
+                shown = len(ln) == 9
+            else:
+                shown = ln.count(",") == 3
+            res.check(rc == 0 and shown == has, "alpha-printed-iff-not-1", "cli:format", inp, "printed %r" % ln)
+
+
 # ------------------------------------------------------------------------------------------ C20
 
 def c20(res, tier, seed, lib):
@@ -929,7 +1049,7 @@ def c08(res, tier, seed, lib):
     combos = [(n, k, sp) for n in range(2, 13) for k in range(2, 6) for sp in spaces]
     if tier != "thorough":
         combos = [c for i, c in enumerate(combos) if i % 3 == seed % 3]
-    ops, meta = [], []
+    ops, meta, refq = [], [], []
     for (n, k, sp) in combos:
         texts = [rand_color_text(rnd) for _ in range(k)]
         inf = infos(texts)
@@ -945,6 +1065,16 @@ def c08(res, tier, seed, lib):
             res.check(lines[0] == inf[0].hsl and lines[-1] == inf[-1].hsl, "gradient-endpoints-are-c1-ck", "cli:gradient", inp, "%s .. %s vs %s .. %s" % (lines[0], lines[-1], inf[0].hsl, inf[-1].hsl))
         ops.append("gradient %s %d %d %s" % (sp, n, k, " ".join(i.wire for i in inf)))
         meta.append((inp, out))
+        refq.append(("grad %s %d %s" % (sp, n, " ".join(hexs(t) for t in texts)), inp, lines))
+    # the gradient the property describes, built through the library's ColorScale
+    # (stops at i/(k-1), samples at j/(N-1)); the command must print exactly these lines
+    for (q, inp, lines), ref in zip(refq, harness_query([q for (q, _, _) in refq])):
+        if ref.startswith("ok "):
+            want_lines = [unhex(x).decode() if x != "-" else "<none>" for x in ref.split(" ")[1].split(",")]
+            res.check(lines == want_lines, "gradient-lines-are-scale-samples", "cli:gradient", inp,
+                      "printed %s, the evenly spaced scale sampled at j/(N-1) gives %s" % (lines[:6], want_lines[:6]))
+        else:
+            res.fail("gradient-reference", "cli:gradient", inp, ref[:100])
     for (inp, out), mo in zip(meta, model_batch(ops)):
         res.model_op()
         want = unhex(mo.split(" ")[1]) if mo.startswith("ok ") else b"?"
@@ -1097,7 +1227,7 @@ def c14(res, tier, seed, lib):
         res.check(rc == want and out == b"", "distinct-validation", "cli:distinct", repr(argv), "rc=%s out=%r" % (rc, out[:60]))
 
 
-RUNNERS = {"C20": c20, "C02": c02, "C06": c06, "C08": c08, "C13": c13, "C14": c14, "C16": c16, "C17": c17, "C18": c18, "C19": c19}
+RUNNERS = {"C20": c20, "C09": c09, "C10": c10, "C02": c02, "C06": c06, "C08": c08, "C13": c13, "C14": c14, "C16": c16, "C17": c17, "C18": c18, "C19": c19}
 
 
 def run(prop, tier, seed, lib):
